@@ -57,13 +57,14 @@ func plans(id, tier string) (Plan, bool) {
 		return Plan{Level: "exploration", Jobs: []Job{
 			{Pkg: pkgV2, Harness: "c03_small", Shards: pick(6, 16)},
 			{Pkg: pkgV2, Harness: "c03_corpus", Params: "t=0.8", Shards: pick(10, 16)},
-			{Pkg: pkgV2, Harness: "c03_corpus", Params: "t=0.5;families=" + map[bool]string{false: "exact", true: "exact,edit1,truncate,scenario;ndocs=60"}[th], Shards: pick(6, 16)},
+			{Pkg: pkgV2, Harness: "c03_corpus", Params: "t=0.5;families=" + map[bool]string{false: "exact", true: "exact,edit1,truncate,scenario;ndocs=30"}[th], Shards: pick(6, 16)},
 			{Pkg: pkgV2, Harness: "c03_bytes", Shards: pick(2, 8)},
 			{Pkg: pkgV2, Harness: "c03_names", Shards: 1},
 		}}, true
 	case "C04":
 		return Plan{Level: "model_checking", Jobs: []Job{
-			{Pkg: pkgV2, Harness: "c04_maporder_small", Instr: "v2map", Shards: pick(8, 16)},
+			{Pkg: pkgV2, Harness: "c04_maporder_small", Instr: "v2map", Params: map[bool]string{false: "maxlen=5;deviations=1", true: "maxlen=7;deviations=1"}[th], Shards: pick(8, 16)},
+			{Pkg: pkgV2, Harness: "c04_maporder_small", Instr: "v2map", Params: map[bool]string{false: "maxlen=3;deviations=2", true: "maxlen=5;deviations=2"}[th], Shards: pick(4, 16)},
 			{Pkg: pkgV2, Harness: "c04_maporder_corpus", Instr: "v2map", Shards: pick(8, 16)},
 			{Pkg: pkgV2, Harness: "c04_history", Shards: pick(4, 12)},
 			{Pkg: pkgV2, Harness: "c04_config", Shards: pick(4, 8)},
@@ -102,7 +103,8 @@ func plans(id, tier string) (Plan, bool) {
 		}}, true
 	case "C08":
 		return Plan{Level: "fault_enumeration", Jobs: []Job{
-			{Pkg: pkgV2, Harness: "c08_chunks", Shards: pick(4, 16)},
+			{Pkg: pkgV2, Harness: "c08_chunks", Params: map[bool]string{false: "inputs=3;deviations=2", true: "inputs=10;deviations=2"}[th], Shards: pick(4, 16)},
+			{Pkg: pkgV2, Harness: "c08_chunks", Params: map[bool]string{false: "inputs=1;deviations=3", true: "inputs=3;deviations=3"}[th], Shards: pick(4, 16)},
 			{Pkg: pkgV2, Harness: "c08_pads", Shards: pick(6, 16)},
 			{Pkg: pkgV2, Harness: "c08_faults", Shards: pick(6, 16)},
 		}}, true
